@@ -1,4 +1,4 @@
-From IV Require Export Base.Word Model.NoCrash.
+From IV Require Export Base.Word Model.NoCrash Model.RateCtlLock.
 From Coq Require Import ZifyBool.
 
 (* one case per fuzz target: (inputs run, panics recovered in the caller, worker process crashes
@@ -38,3 +38,106 @@ Definition size_spec_failures (cases : list size_case) : list nat :=
     negb (if k =? 0 then obs <=? a
           else (* an accepted payload must be one the pacer can hand on without panicking *)
                if obs =? 1 then match lb_dequeue a with Ok _ => true | _ => false end else true)) cases 0.
+
+(* ------------------------------------------------------------------------------------------
+   Round 3: well-formed, stateful congestion-control feedback histories.
+
+   c02hist - one case per scenario run against a real cc / rtpfb interceptor: outgoing packets
+   paced in real time, then well-formed TWCC / RFC 8888 feedback whose receive deltas follow a
+   pattern (over-use, under-use, normal, alternating, ...), then further calls, EVERY call under a
+   watchdog.  A step is (op, status, n, given):
+     op      0 Write (outgoing RTP)          1 RTCP Read of a well-formed feedback packet
+             2 RTCP Read of a well-formed probe (receiver report)
+             3 GetTargetBitrate              4 GetStats          5 Close
+             6 RTCP Read after Close (an error is a correct answer there)
+     status  0 returned, 1 returned an error, 2 panicked, 3 did not return (watchdog),
+             4 the process died (panic / fatal error in a background goroutine) during or after it
+     n, given: bytes reported / bytes handed in (reads).
+   The property demands: every call returns, nothing panics, reads report at most what they were
+   given, and well-formed calls before Close are served without an error. *)
+Definition hist_step := (Z * Z * Z * Z)%type.
+Definition hist_case := (Z * list hist_step)%type.   (* (target: 0 gcc leaky, 1 gcc no-op pacer, 2 rtpfb), steps *)
+
+Definition hist_is_read (op : Z) : bool := (op =? 1) || (op =? 2) || (op =? 6).
+
+(* failure codes as in fuzz_code: 1 panic, 2 process crash, 3 hang, 4 more bytes than given, 5 well-formed call refused *)
+Definition hist_step_code (s : hist_step) : nat :=
+  let '(op, st, n, given) := s in
+  if st =? 4 then 2%nat
+  else if st =? 2 then 1%nat
+  else if st =? 3 then 3%nat
+  else if hist_is_read op && (given <? n) then 4%nat
+  else if st =? 0 then 0%nat
+  else if (st =? 1) && (op =? 6) then 0%nat
+  else 5%nat.
+
+Fixpoint hist_steps_code (l : list hist_step) : nat :=
+  match l with
+  | [] => 0%nat
+  | s :: tl => match hist_step_code s with O => hist_steps_code tl | c => c end
+  end.
+
+Definition hist_code (c : hist_case) : nat := hist_steps_code (snd c).
+
+Definition hist_spec_failures (cases : list hist_case) : list (nat * nat) :=
+  let fix go (l : list hist_case) (i : nat) :=
+    match l with
+    | [] => []
+    | c :: tl => match hist_code c with O => go tl (S i) | code => (i, code) :: go tl (S i) end
+    end in go cases 0%nat.
+
+(* the same, as a proposition (Proofs/RateCtlLockProofs.v: hist_code_iff) *)
+Definition hist_step_ok (s : hist_step) : Prop :=
+  let '(op, st, n, given) := s in
+  (st = 0 \/ (st = 1 /\ op = 6)) /\ (hist_is_read op = true -> n <= given).
+
+(* c02rc - one case per history of calls on the rate controller of a real gcc.SendSideBWE (driven
+   through the verif hooks, every call under a watchdog), compared with Model/RateCtlLock.v.
+   A step is ((kind, s, u), (status, pub_usage, pub_state)):
+     kind 0 onDelayStats{State: s, Usage: u}   1 onReceivedRate   2 a Lock/Unlock critical section
+          (updateRTT's shape)                   3 GetTargetBitrate 4 Close (always last)
+     status as above; pub_* = GetStats()["usage"/"state"] right after the call. *)
+Definition rc_obs_step := ((Z * Z * Z) * (Z * Z * Z))%type.
+Definition rc_case := list rc_obs_step.
+
+Definition usage_of (z : Z) : usage := if z =? 0 then UOver else if z =? 1 then UUnder else UNormal.
+Definition rstate_of (z : Z) : rstate := if z =? 0 then SIncrease else if z =? 1 then SDecrease else SHold.
+Definition usage_code (u : usage) : Z := match u with UOver => 0 | UUnder => 1 | UNormal => 2 end.
+Definition rstate_code (s : rstate) : Z := match s with SIncrease => 0 | SDecrease => 1 | SHold => 2 end.
+
+Definition rcop_of (k s u : Z) : rcop :=
+  if k =? 0 then OpDelay (rstate_of s) (usage_of u)
+  else if k =? 1 then OpRate
+  else if k =? 2 then OpRTT
+  else OpGet.   (* GetTargetBitrate; Close with no call in flight: neither touches c.lock *)
+
+Fixpoint rc_conforms (c : rc) (l : rc_case) : bool :=
+  match l with
+  | [] => true
+  | ((k, s, u), (st, pu, ps)) :: tl =>
+      match rc_step false c (rcop_of k s u) with
+      | Done c' => (st =? 0) && (usage_code (fst (rc_pub c')) =? pu) && (rstate_code (snd (rc_pub c')) =? ps)
+                   && rc_conforms c' tl
+      | _ => negb (st =? 0)
+      end
+  end.
+
+Definition rc_mismatches (cases : list rc_case) : list nat :=
+  find_idx (fun c => negb (rc_conforms rc0 c)) cases 0.
+
+Definition rc_step_code (s : rc_obs_step) : nat :=
+  let '(_, (st, _, _)) := s in
+  if st =? 0 then 0%nat else if st =? 4 then 2%nat else if st =? 2 then 1%nat else if st =? 3 then 3%nat else 5%nat.
+
+Fixpoint rc_steps_code (l : rc_case) : nat :=
+  match l with
+  | [] => 0%nat
+  | s :: tl => match rc_step_code s with O => rc_steps_code tl | c => c end
+  end.
+
+Definition rc_spec_failures (cases : list rc_case) : list (nat * nat) :=
+  let fix go (l : list rc_case) (i : nat) :=
+    match l with
+    | [] => []
+    | c :: tl => match rc_steps_code c with O => go tl (S i) | code => (i, code) :: go tl (S i) end
+    end in go cases 0%nat.
